@@ -32,6 +32,7 @@ func main() {
 	repo := flag.String("repo", "/repo", "repository root")
 	verif := flag.String("verif", "/verif", "verif root (evidence, known findings, tables)")
 	mutant := flag.String("mutant", "", "internal: run the property's rules on one named mutant and print a JSON result")
+	benign := flag.String("benign", "", "internal: run the property's rules on one named behaviour-preserving variant and print a JSON result")
 	list := flag.Bool("list", false, "list properties and rules")
 	manifest := flag.Bool("manifest", false, "print MANIFEST.json generated from the rule registry and not_applicable.json")
 	verbose := flag.Bool("v", false, "print every obligation")
@@ -69,7 +70,11 @@ func main() {
 	root, _ := filepath.Abs(*repo)
 
 	if *mutant != "" {
-		runMutant(root, prop, *mutant)
+		runMutant(root, prop, *mutant, false)
+		return
+	}
+	if *benign != "" {
+		runMutant(root, prop, *benign, true)
 		return
 	}
 
@@ -143,7 +148,7 @@ func main() {
 	// sensitivity suite (thorough): never affects the exit status
 	var mres []mutantResult
 	if *tier == "thorough" && len(prop.Mutants) > 0 {
-		mres = runMutants(root, *verif, prop)
+		mres = runVariants(root, *verif, prop, prop.Mutants, "-mutant")
 		det, tried := 0, 0
 		for _, m := range mres {
 			if m.Outcome != "skipped" {
@@ -159,10 +164,28 @@ func main() {
 		fmt.Printf("sensitivity: %d/%d mutants detected\n", det, tried)
 	}
 
+	var bres []mutantResult
+	if *tier == "thorough" && len(prop.Benign) > 0 {
+		bres = runVariants(root, *verif, prop, prop.Benign, "-benign")
+		silent, tried := 0, 0
+		for _, m := range bres {
+			if m.Outcome != "skipped" {
+				tried++
+			}
+			if m.Outcome == "silent" {
+				silent++
+			}
+			if m.Outcome != "silent" && m.Outcome != "skipped" {
+				fmt.Fprintf(os.Stderr, "ROBUSTNESS: behaviour-preserving variant %s of %s: %s (%s)\n", m.Name, prop.ID, m.Outcome, m.Reported)
+			}
+		}
+		fmt.Printf("robustness: %d/%d behaviour-preserving variants silent\n", silent, tried)
+	}
+
 	wall := time.Since(t0).Seconds()
 	evPath := filepath.Join(*verif, "evidence", prop.ID+".json")
 	if !*noEvidence {
-		if err := writeEvidence(evPath, prop, *tier, seed, all, stats, configs, len(distinct), len(nontrivial), discharged, violations, knownPrinted, mres, wall); err != nil {
+		if err := writeEvidence(evPath, prop, *tier, seed, all, stats, configs, len(distinct), len(nontrivial), discharged, violations, knownPrinted, mres, bres, wall); err != nil {
 			fmt.Fprintf(os.Stderr, "CHECK-BROKEN: evidence: %v\n", err)
 			os.Exit(2)
 		}
@@ -186,7 +209,7 @@ func isFlagSet(name string) bool {
 }
 
 func writeEvidence(path string, prop *core.Property, tier string, seed int, all []core.Obligation, stats map[string]int,
-	configs []string, distinct, nontrivial, discharged, violations int, known []string, mres []mutantResult, wall float64) error {
+	configs []string, distinct, nontrivial, discharged, violations int, known []string, mres, bres []mutantResult, wall float64) error {
 	// samples: every failing obligation plus up to 4 discharged per rule
 	var samples []core.Obligation
 	perRule := map[string]int{}
@@ -241,6 +264,18 @@ func writeEvidence(path string, prop *core.Property, tier string, seed int, all 
 		}
 		cov["sensitivity"] = map[string]interface{}{"mutants_tried": tried, "mutants_detected": det, "results": mres}
 	}
+	if bres != nil {
+		silent, tried := 0, 0
+		for _, m := range bres {
+			if m.Outcome != "skipped" {
+				tried++
+			}
+			if m.Outcome == "silent" {
+				silent++
+			}
+		}
+		cov["robustness"] = map[string]interface{}{"variants_tried": tried, "variants_silent": silent, "results": bres}
+	}
 	ev := map[string]interface{}{
 		"property_id": prop.ID,
 		"tier":        tier,
@@ -262,11 +297,15 @@ func writeEvidence(path string, prop *core.Property, tier string, seed int, all 
 }
 
 // runMutant evaluates one mutant in this process and prints a JSON result.
-func runMutant(root string, prop *core.Property, name string) {
+func runMutant(root string, prop *core.Property, name string, benign bool) {
 	var m *core.Mutant
-	for i := range prop.Mutants {
-		if prop.Mutants[i].Name == name {
-			m = &prop.Mutants[i]
+	list := prop.Mutants
+	if benign {
+		list = prop.Benign
+	}
+	for i := range list {
+		if list[i].Name == name {
+			m = &list[i]
 		}
 	}
 	res := mutantResult{Name: name}
@@ -318,6 +357,16 @@ func runMutant(root string, prop *core.Property, name string) {
 		rep = append(rep[:6], fmt.Sprintf("... %d more", len(rep)-6))
 	}
 	res.Reported = strings.Join(rep, "; ")
+	if benign {
+		res.Expected = "no report"
+		if len(rep) == 0 {
+			res.Outcome = "silent"
+		} else {
+			res.Outcome = "false-alarm"
+		}
+		emit()
+		return
+	}
 	if hit {
 		res.Outcome = "detected"
 	} else {
@@ -327,21 +376,21 @@ func runMutant(root string, prop *core.Property, name string) {
 }
 
 // runMutants evaluates every mutant in sub-processes, four at a time.
-func runMutants(root, verif string, prop *core.Property) []mutantResult {
-	res := make([]mutantResult, len(prop.Mutants))
+func runVariants(root, verif string, prop *core.Property, list []core.Mutant, flagName string) []mutantResult {
+	res := make([]mutantResult, len(list))
 	sem := make(chan struct{}, 4)
 	var wg sync.WaitGroup
 	self, _ := os.Executable()
-	for i := range prop.Mutants {
+	for i := range list {
 		wg.Add(1)
 		go func(i int) {
 			defer wg.Done()
 			sem <- struct{}{}
 			defer func() { <-sem }()
-			cmd := exec.Command(self, "-prop", prop.ID, "-repo", root, "-verif", verif, "-mutant", prop.Mutants[i].Name)
+			cmd := exec.Command(self, "-prop", prop.ID, "-repo", root, "-verif", verif, flagName, list[i].Name)
 			cmd.Stderr = nil
 			out, err := cmd.Output()
-			r := mutantResult{Name: prop.Mutants[i].Name, Outcome: "error"}
+			r := mutantResult{Name: list[i].Name, Outcome: "error"}
 			lines := strings.Split(strings.TrimSpace(string(out)), "\n")
 			if jerr := json.Unmarshal([]byte(lines[len(lines)-1]), &r); jerr != nil {
 				r.Reported = fmt.Sprintf("%v %v", err, jerr)
